@@ -1410,7 +1410,7 @@ class _TextCensus:
                     alts = [a + b for a in alts for b in tpl[inner.id]]
                     continue
                 if isinstance(inner, ast.Name) and env.get(inner.id) == 'layout':
-                    alts = [a + [('lit', '')] for a in alts]
+                    alts = [a + [('lit', _IND)] for a in alts]        # the run-time indent: a marker character inside the literal
                     continue
                 if isinstance(inner, ast.Call) and ast.unparse(inner.func) == 'escape_text' and len(inner.args) == 1:
                     ty = self.type_of(inner.args[0], env, where)
@@ -2029,6 +2029,7 @@ def _vmt_needs_quotes(vmt_tree: ast.Module) -> tuple[str, dict]:
     return line, {'empty': empty, 'leading': sorted(set(leading)), 'disallowed': sorted(set(disallowed))}
 
 
+_IND = '\x01'      # stands for `{indent}` (a layout parameter: whitespace chosen by the caller) inside a template literal
 _BARE_DELIMS = set('"\'{};,=[]()\r\n\t ')
 
 
@@ -2061,6 +2062,10 @@ def _line_items(template: list[tuple]) -> list[str] | None:
             items.append(f'IWs {lit(run)}')
             shown.append(run)
             i = j
+        elif kind == 'c' and x == _IND:
+            items.append('IInd')
+            shown.append(_IND)
+            i += 1
         elif kind == 'c' and x == '\n':
             items.append('INl')
             shown.append('\n')
@@ -2081,7 +2086,7 @@ def _line_items(template: list[tuple]) -> list[str] | None:
             if ch(j) != '"':
                 return None                     # a field inside a longer quoted string, or an unterminated quote
             text = ''.join(stream[k][1] for k in range(i + 1, j))
-            if any(c in text for c in '\\\r\n') or any(ord(c) > 126 for c in text):
+            if any(c in text for c in '\\\r\n') or any(ord(c) > 126 or ord(c) < 32 for c in text):
                 return None
             items.append(f'IQLit {lit(text)}')
             shown.append('"' + text + '"')
@@ -2093,9 +2098,9 @@ def _line_items(template: list[tuple]) -> list[str] | None:
             items.append(f'IBare {ord(d)}')
             shown.append('\0' + d)
             i += 2
-        elif kind == 'c' and x not in _BARE_DELIMS and x not in '/#' and ord(x) < 127:
+        elif kind == 'c' and x not in _BARE_DELIMS and x not in '/#' and 32 < ord(x) < 127:
             j = i
-            while ch(j) is not None and ch(j) not in _BARE_DELIMS and ord(ch(j)) < 127:
+            while ch(j) is not None and ch(j) not in _BARE_DELIMS and 32 < ord(ch(j)) < 127:
                 j += 1
             d = ch(j)
             if d is None or d not in ' \t\n':
@@ -2177,6 +2182,7 @@ def translate_text_writers() -> tuple[str, dict]:
 
     def cs(s: str) -> str:
         return _coq_bytes(s.encode('ascii'))
+    cho_lines_coq, cho_bad = _coq_lines('cho_lines', [l for fn_, l in cho.lines])
     lines = [
         '(* GENERATED by translate/c20_formats.py from sndscript.py (Sound.export, Sound.parse_one), vmt.py (Material.export, _write_block),',
         '   choreo.py (the export_text methods). Do not edit. *)',
@@ -2192,11 +2198,12 @@ def translate_text_writers() -> tuple[str, dict]:
         *model_lines,
         nq_line,
         snd_lines_coq,
+        cho_lines_coq,
         '',
     ]
     side = {'sndscript': [list(s) for s in snd.sites], 'vmt': [list(s) for s in vmt.sites], 'choreo': [list(s) for s in cho.sites],
             'stacks_written': written, 'stacks_read': read, 'stack_model': model_side, 'vmt_needs_quotes': nq_side,
-            'sndscript_lines': [[list(x) for x in l] for fn_, l in snd.lines if fn_ == 'Sound.export'], 'sndscript_lines_unstructured': snd_bad,
+            'sndscript_lines': [[list(x) for x in l] for fn_, l in snd.lines if fn_ == 'Sound.export'], 'sndscript_lines_unstructured': snd_bad, 'choreo_text_lines': len(cho.lines), 'choreo_text_lines_unstructured': cho_bad,
             'digests': {'Sound.export': ast_digest(fn_snd)}}
     return '\n'.join(lines), side
 
